@@ -669,6 +669,18 @@ func init() {
 func streamDeb(g *core.G) {
 	r := g.R
 	n := g.N(300, 12000)
+	// zstd frames whose header declares every window size up to 2^27 - the largest dpkg-deb can
+	// produce (-Zzstd -z22); what `zstd --long=28..31` writes is beyond the decoder library's own
+	// limit and outside the claim
+	for wl := 10; wl <= 27; wl++ {
+		if !g.Thorough && wl > 12 && wl < 26 && wl%4 != 0 {
+			continue
+		}
+		m := genDebModel(r)
+		m.CtlExt, m.DataExt, m.ZstWindow = ".zst", ".zst", wl
+		m.CtlCut, m.DataCut = 0, 0
+		emitDebModel(g, m)
+	}
 	// all 6x6 compression combinations first
 	for _, ce := range compExts {
 		for _, de := range compExts {
